@@ -13,6 +13,7 @@ For every case the check
     AND the observed behaviour is the recorded one; anything else is a new violation.
 """
 import importlib
+import json
 
 import netaddr
 
@@ -64,6 +65,55 @@ def coq_list(xs, f=str):
     return '[%s]' % '; '.join(f(x) for x in xs)
 
 
+# attribute VALUE lengths every family is driven to (see Family.gen): around the one-/two-octet
+# attribute length switch (MP attributes always set the extended-length flag: a change of that shows
+# here), and the largest value struct.pack('!H') can frame; one octet more cannot be constructed
+SIZE_TARGETS_QUICK = [254, 255, 256, 257, 65535]
+SIZE_TARGETS_THOROUGH = [253, 254, 255, 256, 257, 258, 4069, 4070, 4096, 65534, 65535]
+SIZE_UNENCODABLE_QUICK = [65536]
+SIZE_UNENCODABLE_THOROUGH = [65536, 65537]
+SIZE_BOUNDARIES = [255, 256, 65535, 65536]
+SHARD_OCTETS = 250000
+
+
+def size_targets(ctx):
+    """[(attribute value length, constructible?)]"""
+    ok = SIZE_TARGETS_THOROUGH if ctx.thorough else SIZE_TARGETS_QUICK
+    bad = SIZE_UNENCODABLE_THOROUGH if ctx.thorough else SIZE_UNENCODABLE_QUICK
+    return [(t, True) for t in ok] + [(t, False) for t in bad]
+
+
+def fill_sizes(target, sizes, rng):
+    """a list of numbers out of `sizes` (encoded route sizes) that sums to exactly `target`, or None.
+    Random choices while far from the target, then an exact change-making table for the rest."""
+    sizes = sorted(set(sizes))
+    if target < 0 or not sizes:
+        return None
+    out = []
+    rest = target
+    slack = 40 * sizes[-1]
+    while rest > slack:
+        s = rng.choice(sizes)
+        out.append(s)
+        rest -= s
+    via = [None] * (rest + 1)        # via[t] = last coin of one way to pay t
+    via[0] = 0
+    order = list(sizes)
+    for t in range(1, rest + 1):
+        rng.shuffle(order)
+        for s in order:
+            if s <= t and via[t - s] is not None:
+                via[t] = s
+                break
+    if via[rest] is None:
+        return None
+    while rest:
+        out.append(via[rest])
+        rest -= via[rest]
+    rng.shuffle(out)
+    return out
+
+
 def run_impl(fn):
     try:
         v = fn()
@@ -97,6 +147,9 @@ class Family(object):
 
     def expected(self, case):        # canonical form of the input = what the round trip must give
         raise NotImplementedError
+
+    def describe(self, case):        # extra words for the violation line (encoded sizes, ...)
+        return ''
 
     def classify(self, case, stage, observed):
         """stage: 'construct-exc' | 'construct-none' | 'parse-exc' | 'differs'; observed: canonical
@@ -148,12 +201,28 @@ def run_family(ctx, fam, per_shard=120):
     pairs = []          # (coq term, impl canonical, case, what)
     viol = []
     nontrivial = 0
+    vlen = {}           # attribute value length -> number of constructed cases
+    fam.value_lengths = vlen
     for case in cases:
         cc, octets, pc, verdict = impl_roundtrip(fam, case)
-        if fam.modelled:
+        if fam.modelled and (ctx.thorough or not case.get('huge')):
+            # ('huge' = attribute of about 64 kB: oracle only in the quick tier, the Coq case file of
+            # one such attribute takes ~10 s)
             pairs.append((fam.coq_construct(case), cc, case, 'construct'))
             if octets is not None:
                 pairs.append((fam.coq_parse(case, octets), pc, case, 'parse'))
+        if octets is not None:
+            vlen[len(octets)] = vlen.get(len(octets), 0) + 1
+        if case.get('unencodable'):
+            # out of range by size (no octets can carry it): construction has to fail
+            if verdict is not None and verdict[0] == 'construct-exc':
+                continue
+            viol.append({'what': '%s %s: a value that cannot be encoded (%s) was not refused by construct'
+                                 % (fam.name, case['kind'], case['unencodable']),
+                         'input': {'family': fam.name, 'kind': case['kind'], 'value': fam.impl_value(case)},
+                         'observed': 'constructed %s octets' % (None if octets is None else len(octets)),
+                         'known': None})
+            continue
         if verdict is None:
             nontrivial += 1
             continue
@@ -161,17 +230,28 @@ def run_family(ctx, fam, per_shard=120):
         if stage == 'construct-none' and case.get('empty'):
             continue
         kid = fam.classify(case, stage, obs)
-        viol.append({'what': '%s %s round trip: %s on input class %s' % (fam.name, case['kind'], stage,
-                                                                     case.get('cls') or ['in-range']),
+        viol.append({'what': '%s %s round trip: %s on input class %s%s' % (fam.name, case['kind'], stage,
+                                                                       case.get('cls') or ['in-range'],
+                                                                       fam.describe(case)),
                      'input': {'family': fam.name, 'kind': case['kind'], 'value': fam.impl_value(case)},
                      'observed': obs if stage == 'differs' else stage, 'known': kid})
     mism = []
     if ctx.coq_ok and pairs:
-        shards = []
-        for i in range(0, len(pairs), per_shard):
-            body = ';\n'.join('(%s, %s)' % (p[0], coq_sx(p[1])) for p in pairs[i:i + per_shard])
+        # a shard is closed at per_shard cases or SHARD_OCTETS of text, whichever comes first (coqc needs
+        # about a second per 40 kB of literal octets: big attributes are spread over the parallel jobs)
+        shards, owners, cur, cur_len = [], [], [], 0
+        texts = ['(%s, %s)' % (p[0], coq_sx(p[1])) for p in pairs]
+        for j, t in enumerate(texts):
+            if cur and (len(cur) >= per_shard or cur_len + len(t) > SHARD_OCTETS):
+                owners.append(cur)
+                cur, cur_len = [], 0
+            cur.append(j)
+            cur_len += len(t)
+        if cur:
+            owners.append(cur)
+        for own in owners:
             shards.append('Definition cases : list (sx * sx) := [\n%s\n].\n'
-                          'Eval vm_compute in (mismatches cases).\n' % body)
+                          'Eval vm_compute in (mismatches cases).\n' % ';\n'.join(texts[j] for j in own))
         results = common.coq_eval_shards(ctx.prop + '_' + fam.name, shards, imports=fam.imports)
         for k, (rc, out) in enumerate(results):
             idx = common.parse_nats(out)
@@ -179,7 +259,7 @@ def run_family(ctx, fam, per_shard=120):
                 mism.append({'what': '%s case file %d does not evaluate: %s' % (fam.name, k, common.first_error(out))})
                 continue
             for i in idx:
-                term, impl, case, what = pairs[k * per_shard + i]
+                term, impl, case, what = pairs[owners[k][i]]
                 mism.append({'what': 'model and implementation differ on %s %s %s' % (fam.name, case['kind'], what),
                              'input': {'family': fam.name, 'kind': case['kind'], 'value': fam.impl_value(case)},
                              'impl': impl, 'model_expr': term[:2000]})
@@ -191,12 +271,14 @@ def run(ctx):
     total, distinct = 0, 0
     mism, viol, samples = [], [], []
     extra = {'families': {}, 'not_covered': list(NOT_COVERED) + [
-        'ipv4_flowspec: model + correspondence + oracle, but only the operator-list codec is proved '
-        '(C07_flowspec_operators_roundtrip_partial); prefix components, rule and attribute framing have no theorem',
+        'ipv4_flowspec: model + correspondence + oracle; proved: the operator-list codec '
+        '(C07_flowspec_operators_roundtrip_partial) and the rule length prefix at every body length 1..4095, both '
+        'forms (C07_flowspec_length_prefix_roundtrip/_form/_out_of_range, C07_flowspec_rule_framed); prefix '
+        'components, the component loop and the attribute framing have no theorem',
         'labeled unicast / IPv6 flowspec MP_UNREACH and add-path variants: not modelled'],
         'proved_families': ['ipv6_unicast (reach+unreach)', 'vpnv4/vpnv6 (reach+unreach)',
                             'labeled_unicast_v4/v6 (reach)', 'label stacks', 'route distinguishers',
-                            'flowspec operator lists (partial)'],
+                            'flowspec operator lists (partial)', 'flowspec rule length prefix (1..4095 octets, both forms)'],
         'patches_assumed_applied': ['build/proposed/c07-1-construct-prefix-v6.diff',
                                     'build/proposed/c07-2-construct-prefix-v4-zero.diff',
                                     'build/proposed/c07-3-evpn-esi-type3-width.diff (optional: otherwise a known finding)']}
@@ -217,11 +299,21 @@ def run(ctx):
             'unreach': sum(1 for c in cases if c['kind'] == 'unreach'),
             'correspondence_pairs': npairs, 'round_trips_ok': nontrivial,
             'property_failures': len(v), 'known_failures': sum(1 for x in v if x['known']),
-            'input_classes': by_cls}
+            'input_classes': by_cls,
+            'attribute_value_octets': {
+                'min': min(fam.value_lengths or [0]), 'max': max(fam.value_lengths or [0]),
+                'distinct': len(fam.value_lengths),
+                'cases_at': dict((str(b), fam.value_lengths.get(b, 0)) for b in SIZE_BOUNDARIES),
+                'refused_as_unencodable': sum(1 for c in cases if c.get('unencodable'))}}
+        extra['families'][fam.name].update(getattr(fam, 'coverage', None) or {})
         samples += [{'family': fam.name, 'kind': c['kind'], 'value': fam.impl_value(c)} for c in cases[:2]]
+    # the replay file gets the first new violation: the one with the smallest input
+    viol.sort(key=lambda x: (x['known'] is not None, len(json.dumps(x['input'], default=str))))
     return {'evaluations': total, 'distinct': distinct,
             'rule': 'per family: exhaustive sweep of prefix lengths / label values / RD and ESI types at field '
-                    'boundaries + seeded random multi-route attributes; evaluations = oracle round trips + '
+                    'boundaries + seeded random multi-route attributes + attributes driven to the encoded-size '
+                    'boundaries (attribute value of 254..257 and 65535 octets, 65536 refused; flowspec rule '
+                    'bodies of every length around 240 and 4095); evaluations = oracle round trips + '
                     'model/implementation comparisons; a case is non-trivial (counted in distinct) when the '
                     'implementation constructs it, parses it and returns exactly the input',
             'samples': samples, 'mismatches': mism, 'violations': viol, 'extra': extra}
@@ -245,6 +337,15 @@ def replay(ctx, obj):
     st, p = run_impl(lambda: cls.parse(bytes(b)[4:]))
     print('octets:', bytes(b).hex())
     print('parse  ->', repr(p))
-    same = (st == 'ok' and p == val)
+    same = (st == 'ok' and _norm(p) == _norm(val))
     print('round trip equal (textually):', same)
     return 0 if same else 1
+
+
+def _norm(x):
+    """JSON turned tuples into lists and integer dictionary keys into strings"""
+    if isinstance(x, dict):
+        return dict((int(k) if isinstance(k, str) and k.isdigit() else k, _norm(v)) for k, v in x.items())
+    if isinstance(x, (list, tuple)):
+        return [_norm(v) for v in x]
+    return x
